@@ -282,7 +282,8 @@ CHECKS["C01"] = dict(
 
 CHECKS["C04"] = dict(
     explanation="(a) every posix entry point that takes a path-like value from a header or query parameter (copy source, prefix, start-after, "
-                "upload id of Abort/UploadPart, version id of Get/Head/Delete) runs on the file-system model with hostile values built from '..', '.', "
+                "upload id of Abort/UploadPart/ListParts/Complete, version id of Get/Head/Delete/batch delete/retention/legal hold/copy source, the keys of a "
+                "batch delete document, the source of UploadPartCopy) runs on the file-system model with hostile values built from '..', '.', "
                 "empty and ordinary segments, with or without a leading slash; the model resolves paths component by component and logs every inode "
                 "touched; protected inodes (another bucket, its objects and version store, a file beside the gateway root) must never be read, "
                 "created, changed, removed or even resolved. (b) the URL decoder on an arbitrary raw path: a request that is passed on has no dot "
@@ -291,8 +292,8 @@ CHECKS["C04"] = dict(
         dict(name="H04a-posix", entry="backend/posix.VfConfinement", reach=["returned"], key_trace=['"param='], **_FS),
         dict(name="H04b-urldecoder", pkgs=["./s3api"], entry="s3api.VfDecodeURL", redirects="spec/redirects_auth.json", reach=["passed-on", "refused"]),
     ],
-    assumptions=["file-system model: component-wise resolution, '..' really walks up", "bucket and key reach the backend only through the request path"],
-    outside=["symlinks", "sidecar metadata store", "admin API parameters", "other posix entry points' version-id parameters (retention / legal hold)",
+    assumptions=["file-system model: component-wise resolution, '..' really walks up", "bucket and key reach the backend only through the request path, except the keys of a batch delete (request document) which are covered by H04a"],
+    outside=["symlinks", "sidecar metadata store", "admin API parameters", "GetObjectAttributes / tagging version ids", "hostile values of more than 3 (4) segments",
              "percent-encoding beyond one decoding pass is the URL decoder's real behaviour (net/url is executed from its SSA)"],
 )
 
